@@ -534,8 +534,21 @@ ApplyHost(m, host, name, args) ==
 \* relational builtin (rand shuffle match match_groups match_all float) and for every ** whose operands
 \* were both evaluated; the specification uses it only where it has no constructive definition.
 OracleBuiltins == Relational \cup {"float"}
+\* Frame rule for objects the specification does not model (host objects of other types than the plain ones): a builtin
+\* that is not a mutator may return or raise anything when given such an object - the observed outcome is adopted - but it
+\* changes nothing: the heap and every names mapping stay as they are (the unmodelled object is compared by its digest).
+\* (A subscript read is not in the set: it runs the object's own __getitem__ / __missing__, which may legitimately insert.)
+FrameBuiltins == {"len", "int", "float", "str", "dict", "list", "startswith", "endswith", "lower", "upper", "strip", "replace", "pretty",
+                  "keys", "values", "items", "sum", "get", "join", "split", "round", "floor", "ceil", "abs", "min", "max",
+                  "reversed", "enumerate", "index_of"}
+FrameCall(f, args) == f.t = "builtin" /\ f.name \in FrameBuiltins /\ \E i \in 1..Len(args) : args[i].t = "opaque"
+ApplyFrame(m, orc) ==
+    IF orc.t \in {"noorc", "unknown", "elem"} THEN LeftDomain(m, "non-mutator on an unmodelled object: result not followed")
+    ELSE IF orc.t = "raise" THEN Raise(m, orc.e)
+    ELSE LET r == Materialize(m.heap, orc.v) IN Ret([m EXCEPT !.heap = r.h], r.v)
 NeedsOracle(m) ==
     \/ m.ctl.t = "call" /\ m.ctl.f.t = "builtin" /\ m.ctl.f.name \in OracleBuiltins
+    \/ m.ctl.t = "call" /\ FrameCall(m.ctl.f, m.ctl.args)
     \/ /\ m.ctl.t = "ret" /\ Len(m.k) > 0 /\ Top(m.k).f = "node" /\ Top(m.k).node.k = "bin" /\ Top(m.k).node.op = "**"
        /\ Top(m.k).pc = 2
 
@@ -551,7 +564,8 @@ ApplyCall(m, host, orc) ==
                             !.k = Push(@, [f |-> "lam", vm |-> c.vm]),
                             !.ctl = [t |-> "eval", node |-> c.node.ch[1], vm |-> c.vm]]
       [] f.t = "builtin" ->
-            IF f.name \in HigherOrder THEN StartHo(m0, f.name, args)
+            IF FrameCall(f, args) THEN ApplyFrame(m0, orc)
+            ELSE IF f.name \in HigherOrder THEN StartHo(m0, f.name, args)
             ELSE IF f.name \in Relational THEN ApplyOracle(m0, f.name, args, orc)
             ELSE LET res == CallAtomic(m0.heap, f.name, args) IN
                  IF "oracle" \in DOMAIN res.r THEN ApplyOracle(m0, res.r.oracle, args, orc) ELSE Deliver(m0, res, f.name, args)
